@@ -29,12 +29,12 @@ type c07Params struct {
 	Seg     int  `json:"seg"`
 }
 
-var c07Behaviours = []string{"none", "trusted", "untrusted", "expired", "wrong-eku", "cv-missing", "cv-wrong-key", "cv-other-transcript", "enc-cert-first-cv-missing"}
+var c07Behaviours = []string{"none", "trusted", "untrusted", "expired", "wrong-eku", "cv-missing", "cv-wrong-key", "cv-other-transcript", "enc-cert-first-cv-missing", "recent", "late"}
 
 func (c07) ID() string    { return "C07" }
 func (c07) Level() string { return "fault_enumeration" }
 func (c07) Rule() string {
-	return "enumerates six ClientAuth policies x client behaviours (no certificate, trusted, untrusted CA, expired, wrong extended key usage, certificate with CertificateVerify missing / made with another key / over another transcript) x ECC and ECDHE suites (GCM and CBC) x both stacks for full handshakes, and (policy of the original handshake) x (policy now in force) x behaviour for resumed handshakes over configurations sharing the session cache; thorough repeats under many seeds. A scripted client on the independent reference implementation plays the behaviour against a real server. The expected outcome comes from a model of the ClientAuthType documentation plus the standard's rule that ECDHE needs the client certificates. distinct = distinct (stack, suite, policies, behaviour, resumed); non-trivial = the server reached the point where the behaviour matters"
+	return "enumerates six ClientAuth policies x client behaviours (no certificate, trusted, untrusted CA, expired, expired only at the configured time (not on the wall clock), in date only at the configured time, wrong extended key usage, encryption certificate first without CertificateVerify, certificate with CertificateVerify missing / made with another key / over another transcript) x ECC and ECDHE suites (GCM and CBC) x both stacks for full handshakes, and (policy of the original handshake) x (policy now in force) x behaviour for resumed handshakes over configurations sharing the session cache; after every refused full handshake the client offers that handshake's session id with the master secret it computed (must not be resumed); thorough repeats under many seeds. A scripted client on the independent reference implementation plays the behaviour against a real server. The expected outcome comes from a model of the ClientAuthType documentation plus the standard's rule that ECDHE needs the client certificates. distinct = distinct (stack, suite, policies, behaviour, resumed); non-trivial = the server reached the point where the behaviour matters"
 }
 func (c07) Components() (real, stub []string) {
 	return []string{"tlcp/dtlcp server (instrumented): certificate request, processCertsFromClient, CertificateVerify check, resumption, session cache"},
@@ -63,7 +63,7 @@ func c07Cases() []c07Params {
 			for _, su := range []uint16{ECC_GCM, ECDHE_CBC} {
 				for p1 := 0; p1 < 6; p1++ {
 					for p2 := 0; p2 < 6; p2++ {
-						for _, b := range []string{"none", "trusted", "untrusted", "expired", "wrong-eku"} {
+						for _, b := range []string{"none", "trusted", "untrusted", "expired", "wrong-eku", "recent", "late"} {
 							if c07Model(p1, b, su) {
 								c07List = append(c07List, c07Params{Stack: st, Suite: su, Policy: p2, Policy1: p1, Behaviour: b, Resumed: true})
 							}
@@ -107,7 +107,9 @@ func c07Model(policy int, behaviour string, suite uint16) bool {
 	}
 	if policy >= 3 {
 		switch behaviour {
-		case "untrusted", "expired":
+		case "untrusted", "expired", "recent":
+			// "recent": in date until mid-2029, that is expired at the configured time (2030) but not on the
+			// simulation's wall clock (2024) nor on any real clock before then
 			return false
 		case "wrong-eku":
 			return policy == 5
@@ -124,6 +126,11 @@ func c07Cert(b string) string {
 		return "client_expired"
 	case "wrong-eku":
 		return "client_wrongeku"
+	case "recent":
+		return "client_recent"
+	case "late":
+		// in date from mid-2029: valid at the configured time only, not yet on the wall clock
+		return "client_late"
 	case "none":
 		return ""
 	}
@@ -274,7 +281,7 @@ func (c07) Run(c *Case, src *vs.Src) *Result {
 				r.Violate("peer-certs-unproven", sigp+" peer-certs-without-proof", "server reports %d peer certificates for behaviour %q", len(co.SrvCS.Peer), p.Behaviour)
 			}
 		}
-		if co.SrvCS.Verified > 0 && !(p.Behaviour == "trusted" || (p.Behaviour == "wrong-eku" && (p.Policy == 5 || (p.Resumed && p.Policy1 == 5)))) {
+		if co.SrvCS.Verified > 0 && !(p.Behaviour == "trusted" || p.Behaviour == "late" || (p.Behaviour == "wrong-eku" && (p.Policy == 5 || (p.Resumed && p.Policy1 == 5)))) {
 			r.Violate("verified-chains", sigp+" verified-chains-unbacked", "server reports verified chains for behaviour %q", p.Behaviour)
 		}
 		if !co.GotApp {
@@ -284,6 +291,15 @@ func (c07) Run(c *Case, src *vs.Src) *Result {
 		if co.SrvCS.Resumed {
 			r.Stat("resumed", 1)
 		}
+	}
+	// a handshake that was refused leaves nothing to resume: the client offers the session id it was given,
+	// with the master secret it computed (it may have been cached before the refusal)
+	if !p.Resumed && !completed && len(co.SID) > 0 && len(co.Master) > 0 {
+		again := run(1, p.Policy, co.SID, co.Master)
+		if again.SrvErr == nil && again.SrvCS.Done && again.SrvCS.Resumed {
+			r.Violate("resumed-after-refusal", sigp+" resumed-after-refusal", "the server refused behaviour %q under policy %d (%v) but then resumed the session of that handshake (id %x): completed with %d peer certificates", p.Behaviour, p.Policy, co.SrvErr, co.SID, len(again.SrvCS.Peer))
+		}
+		r.Stat("probe_resume_after_refusal", 1)
 	}
 	return r
 }
